@@ -298,7 +298,7 @@ class OnlineVariance(object):
                     average += avg*cnt
         average/=size
         #print('AVERGAE',average)
-        counts = np.array(counts) * size/np.sum(counts)
+        counts = np.array(counts, dtype=float)
 
         squares = None
 
